@@ -81,7 +81,7 @@ def show(v):
     if t == 'f':
         x = struct.unpack('<d', struct.pack('<Q', v[1]))[0]
         return "f64(%r;bits=%#x)" % (x, v[1])
-    if t == 's': return ("safe" if v[1] else "") + repr("".join(chr(c) for c in v[2]))
+    if t == 's': return ["", "safe", "heap", "runtime"][v[1]] + repr("".join(chr(c) for c in v[2]))
     if t == 'y': return "b" + repr(bytes(v[1]))[1:]
     if t == 'l': return "[" + ", ".join(show(x) for x in v[1]) + "]"
     if t == 't': return "(" + ", ".join(show(x) for x in v[1]) + ",)"
@@ -204,6 +204,15 @@ def pool_a(thorough):
           F(2.0**53), F(2.0**53 + 2), F(2.0**53 - 1), F(2.0**63), F(-2.0**63), F(2.0**63 - 1024), F(2.0**64), F(2.0**127), F(-2.0**127), F(2.0**128),
           F(1), F(1e300), F(-2.0**53 - 2)]          # F(1): the smallest subnormal
     p += [S(""), S("a"), S("A"), S("b"), S("ab"), S("a", 1), S(LONG), S(LONG, 1), S("é"), S("1")]
+    # the same text in every representation the engine has (inline SmallStr / safe heap / Arc<str> heap / made at run time),
+    # NUL characters (the inline buffer is zero padded), lengths around the 22-byte inline boundary incl. a 2-byte char across it
+    B22, B23, M22, M23 = "a" * 22, "a" * 23, "a" * 20 + "é", "a" * 21 + "é"
+    if thorough:
+        p += [S(t, f) for t in ("\0", "ab\0", "ab\0\0", "a\0b", "\0\0") for f in (0, 1, 2, 3)] + [S("ab", f) for f in (1, 2, 3)] + [S("", 2)]
+        p += [S(t, f) for t in (B22, B23, M22, M23, "a" * 21) for f in (0, 1, 2, 3)]
+    else:
+        p += [S("\0"), S("ab\0"), S("ab\0\0"), S("a\0b"), S("ab\0", 2), S("ab\0", 3), S("ab", 1), S("ab", 2), S("ab", 3), S("\0", 2),
+              S(B22), S(B22, 2), S(B23), S(M22), S(M22, 2), S(M23), S(B22 + "\0"), S("a" * 21 + "\0")]
     p += [Y([]), Y([97]), Y([255]), Y([97, 255])]
     p += [L(), L(I(1)), L(F(1.0)), L(B(1)), L(I(1), I(2)), L(L(I(1))), L(N), L(U), L(S("a")),
           T(), T(I(1)), T(I(1), I(2)), T(B(1)),
@@ -361,6 +370,7 @@ def amap(k, ident):
 
 SCAL = [I(1), F(1.0), S("a"), S("A"), S("b"), I(2)]                       # 1 / 1.0 and "a" / "A": Equal keys, distinguishable items
 MAPS = [amap(I(1), 0), amap(F(1.0), 1), amap(S("a"), 2), amap(S("A"), 3), amap(S("b"), 4), amap(None, 5)]
+NULS = [S("ab\0"), S("ab", 2), S("ab\0", 2), S("ab\0\0"), S("a\0b"), S("AB\0")]
 WIDE = SCAL + [I(0), I(-3), F(0.5), F(-0.0), I(0), S(""), S("B"), S("ab"), S("a", 1), S("€"), B(1), B(0), N, L(I(1)), L(), T(I(1)), M((S("a"), I(1))),
                F(float('inf')), I(2**62), S("Ab"), S("aB")]
 BYTES = [Y([97]), Y([66]), Y([0, 255]), Y([99, 255]), Y([100])]
@@ -369,7 +379,7 @@ DKEYS = [S("a"), S("B"), S("b"), S("A"), I(1), I(2)]
 TRUTH = [I(0), I(2), S(""), S("a"), L(), L(I(0)), IT(0), IT(0, N), IT(1), IT(2), B(0), B(1), N, U, F(0.0), F(-0.0), F(0x7ff8000000000000), F(0.5),
          M(), M((S("a"), I(0))), T(), Y([]), Y([0]), P("x")]
 SUMS = [I(1), I(-3), I(2**62), I(0), U]
-JOINS = [S("a"), S(""), I(-12), I(7), S("b", 1), S("€"), I(0)]
+JOINS = [S("a"), S(""), I(-12), I(7), S("b", 1), S("€"), I(0), S("a\0")]
 
 
 def containers(rng, items):
@@ -433,6 +443,21 @@ def gen_filters(chk):
                     cases.append(fcase("items", m))
     for cont in (L(I(1)), N, U, S("ab"), I(3)):
         cases.append(fcase("dictsort", cont)); cases.append(fcase("items", cont))
+    # strings that differ only in trailing NUL characters / in their representation: every list of length <= 3, and as map keys
+    for nn in range(0, 4):
+        for idx in itertools.product(range(len(NULS)), repeat=nn):
+            xs = L(*[NULS[i] for i in idx])
+            for cs in (2, 1):
+                cases.append(fcase("sort", xs, cs=cs)); cases.append(fcase("unique", xs, cs=cs))
+            cases.append(fcase("sort", xs, rev=1))
+            for f in ("min", "max", "select"):
+                cases.append(fcase(f, xs))
+            cases.append(fcase("join", xs, attr="-"))
+    for ks in itertools.permutations([S("k"), S("k\0", 2), S("k\0\0"), S("j\0")], 2):
+        m = M((ks[0], I(1)), (ks[1], I(2)))
+        for by in (0, 1):
+            cases.append(fcase("dictsort", m, count=by)); cases.append(fcase("dictsort", m, count=by, cs=1, rev=1))
+        cases.append(fcase("items", m))
     # map(attribute=..), select / reject, sum, join: every list of length <= 2 or 3 over small pools
     for nn in range(0, 4):
         for idx in itertools.product(range(len(MAPS) + 2), repeat=nn):
@@ -472,13 +497,13 @@ def gen_filters(chk):
         r = rng.below(10)
         n = 5 + rng.below(12) if rng.chance(2, 3) else 30 + rng.below(120)
         if r < 4:
-            pool = WIDE if rng.chance(3, 4) else WIDE + BYTES
+            pool = (WIDE if rng.chance(3, 4) else WIDE + BYTES) + (NULS if rng.chance(1, 2) else [])
             xs = [rng.choice(pool) for _ in range(n)]
             cont = rng.choice(containers(rng, xs))
             f = rng.choice(["sort", "sort", "unique", "min", "max", "reverse", "reverse2", "last"])
             cases.append(fcase(f, cont, rev=rng.choice([2, 0, 1]) if f == "sort" else 2, cs=rng.choice([2, 0, 1]) if f in ("sort", "unique") else 2))
         elif r < 7:
-            keys = [rng.choice(WIDE[:17] + [None]) for _ in range(n)]
+            keys = [rng.choice(WIDE[:17] + [None] + (NULS if rng.chance(1, 3) else [])) for _ in range(n)]
             ms = [amap(k, i) for i, k in enumerate(keys)]
             if rng.chance(1, 4):
                 ms = [rng.choice([U, N, I(7)]) if rng.chance(1, 4) else m for m in ms]
@@ -522,6 +547,7 @@ def lower(v):
 def canon(v):
     t = v[0]
     if t == 'i': return ('i', 0, v[2])
+    if t == 's': return ('s', 1 if v[1] == 1 else 0, v[2])       # representations 0 / 2 / 3 are one and the same string
     if t == 'l' or t == 't': return (t, tuple(canon(x) for x in v[1]))
     if t == 'it': return ('it', 0, tuple(canon(x) for x in v[2]))
     if t == 'm': return ('m', tuple((canon(k), canon(x)) for k, x in v[1]))
@@ -833,7 +859,7 @@ def filter_key_pool():
     def add(v):
         v = ckey(v)
         if v not in vals: vals.append(v)
-    for v in WIDE + BYTES + MAPS + DKEYS + [ZZ, U, N, I(7), I(0), I(1)] + [S("k%d" % i) for i in range(4)]:
+    for v in WIDE + NULS + BYTES + MAPS + DKEYS + [ZZ, U, N, I(7), I(0), I(1)] + [S("k%d" % i) for i in range(4)] + [S("k"), S("k\0"), S("k\0\0"), S("j\0")]:
         add(v); add(lower(v))
     return vals
 
@@ -975,7 +1001,7 @@ def main():
                                     "how": "./check C07 --replay <this file>"}, cls_)
             if n:
                 check_pair_laws(tab, prof, report)
-                if chk.thorough or n <= 130:
+                if chk.thorough or n <= 140:
                     triples = ((i, j, k) for i in range(n) for j in range(n) for k in range(n))
                 else:
                     triples = ((chk.rng.below(n), chk.rng.below(n), chk.rng.below(n)) for _ in range(20000))
